@@ -1199,6 +1199,18 @@ inline std::string hostile_text(vf::Rng& r, size_t max_len) {
     }
     default: {  // long number
       t = r.coin() ? "-" : "";
+      if (r.below(3) == 0) {
+        // 600..2600 significant digits with a multi-digit integer part, scaled into the ranges where the conversion
+        // falls back to its big-decimal path (near the overflow threshold, subnormals, or undecidable halfway cases)
+        size_t nd = r.range(600, 2600), ip = r.range(1, 320);
+        for (size_t i = 0; i < nd; i++) {
+          if (i == ip) t += '.';
+          t += (char)('0' + (i == 0 ? 1 + r.below(9) : r.below(10)));
+        }
+        long target = r.below(3) == 0 ? 308 : r.below(2) ? -(long)r.range(300, 330) : (long)r.range(0, 40) - 20;  // decimal exponent of the value
+        t += "e" + std::to_string(target - (long)ip + 1);
+        break;
+      }
       for (size_t i = 0; i < n; i++) t += (char)('0' + r.below(10));
       if (r.coin()) t += ".5";
       if (r.below(3) == 0) t += "e" + std::to_string(r.below(400));
